@@ -286,6 +286,12 @@ class Rdd(Engine):
         for j, (lines, _) in enumerate(res):
             for m, l in enumerate(lines):
                 out[j + m * k] = l
+        # a case killed by the harness's alarm or by the chunk time-out is run once more on its own: on a loaded
+        # machine that can be scheduling, not the code under test; a real endless loop dies again
+        again = [i for i, l in enumerate(out) if any(x.endswith('signal=14') or x == '!crash timeout' for x in l)]
+        for i in again[:40]:
+            r, _ = super().run_impl(exe, [cases[i]])
+            out[i] = r[0]
         return out, '\n'.join(e for _, e in res if e)[-3000:]
 
     def oracle(self, case, impl):
